@@ -44,7 +44,7 @@ ASSUMPTIONS = [
     "themselves are C01's subject",
     "column position of reset_index levels follows the docstring example (appended), so the paired frame operation "
     "moves them to the end; relative order of >=2 explicitly listed levels is not compared",
-    "outside the domain (skipped, labelled): set_index(append=True) without schema index, reset_index(level=[]), "
+    "outside the domain (skipped, labelled): set_index(append=True) without schema index, "
     "reset onto an existing column name, duplicate keys, removal of a member of schema-level unique (verdict only)",
 ]
 
@@ -267,6 +267,8 @@ def programs(draw, backend="pandas"):
                         if not ok:
                             continue
                         level = [draw(st.sampled_from(ok))]
+                    elif flag(0.08):
+                        level = []
                     elif flag(0.5):
                         level = None
                     else:
